@@ -54,6 +54,13 @@ INVENTORY = {
     ("arrow_flight::decode::FlightDataDecoder::extract_message", "RecordBatchDecoder::with_skip_validation"): "passes the decoder's own UnsafeFlag on",
 }
 
+# extra obligations of audited sites: (root function) -> (callee that must be called inside a loop, callees that must not be called)
+SITE_OBLIGATIONS = {
+    "<arrow_json::reader::run_end_array::RunEndEncodedArrayDecoder<R> as arrow_json::reader::ArrayDecoder>::decode":
+        (re.compile(r"ArrowNativeType::from_usize$"), re.compile(r"ArrowNativeType::(usize_as|as_usize)$|::wrapping_"),
+         "every run end is converted with the checked from_usize inside the loop; a wrapping conversion would feed RunEndBuffer::new_unchecked non-monotonic run ends"),
+}
+
 WIRE_CALLS = re.compile(r"(^|::)(read_list_begin|read_vlq|read_zig_zag|read_i16|read_i32|read_i64|read_footer_length|read_varint|read_set_begin|read_map_begin)$")
 WIRE_FIELDS = {"uncompressed_page_size", "compressed_page_size", "bodyLength"}
 SINK = re.compile(r"(Vec::<T>::with_capacity|vec::from_elem|Vec::<T, A>::reserve|Vec::<T, A>::resize|Vec::<T, A>::reserve_exact|"
@@ -138,6 +145,25 @@ def run_inventory(ck, F):
                 else:
                     ck.bad("C08.unchecked-inventory", "%s -> %s" % key, "%s builds a value with the unchecked constructor %s from decoded input and is not in the audited table: "
                            "show which validation makes it sound and add it, or use the checked constructor" % (fn["id"], n), b.loc(bb))
+
+
+def run_site_obligations(ck, F):
+    ck.rule("C08.audited-site-obligations", "the validation that justifies an audited unchecked construction is still in place at that site", floor=len(SITE_OBLIGATIONS))
+    from .c04 import in_cycle
+    for fid, (need_loop, forbid, why) in SITE_OBLIGATIONS.items():
+        fn = F.resolve(fid)
+        if fn is None:
+            ck.missing_anchor(fid, "C08.audited-site-obligations")
+            continue
+        b = Body(fn)
+        allb = set(range(b.n))
+        need = [bb for bb, t in b.calls() if need_loop.search(flow.norm(callee(t) or "")) or need_loop.search(callee(t) or "")]
+        looped = [bb for bb in need if in_cycle(b, bb, allb)]
+        bad = [b.loc(bb) + " " + (callee(t) or "") for bb, t in b.calls() if forbid.search(flow.norm(callee(t) or "")) or forbid.search(callee(t) or "")]
+        if looped and not bad:
+            ck.ok("C08.audited-site-obligations", flow.norm(fid), why)
+        else:
+            ck.bad("C08.audited-site-obligations", flow.norm(fid), "%s: %s (checked conversions in the loop: %d, forbidden conversions: %s)" % (fid, why, len(looped), bad), "%s:%s" % (fn["file"], fn["line"]))
 
 
 def run_alloc(ck, F):
@@ -249,6 +275,7 @@ def run(ck, tier):
     run_csv(ck, F)
     run_ipc_gating(ck, F)
     run_inventory(ck, F)
+    run_site_obligations(ck, F)
     run_alloc(ck, F)
     run_variant(ck, F)
     api.must_be_unsafe(ck, F, "C08.skip-validation-is-unsafe", ["arrow_ipc", "arrow_flight", "arrow_data"], re.compile(r"skip_validation|^set$"),
